@@ -758,7 +758,8 @@ func TestShortSyncHandover(t *testing.T) {
 // advertises exactly the one height `at` and serves `kind` for it; a peer with the whole chain connects 40 ticks later.
 // So block `at` first comes from the liar and both its neighbours from peers that never lie.
 func narrowScenario(kind string, at int) *scenario {
-	sc := &scenario{Reactor: "v0", Initial: 1, Keys: []int{0, 1, 2, 3}, Powers: []int64{10, 10, 10, 10}}
+	// total power 11 = 2 (mod 3): floor(2*11/3) = 7 = 4+3 can be hit exactly by a subset
+	sc := &scenario{Reactor: "v0", Initial: 1, Keys: []int{0, 1, 2, 3}, Powers: []int64{4, 3, 2, 2}}
 	const n = 8
 	for i := 0; i < n; i++ {
 		sc.Heights = append(sc.Heights, heightSpec{Txs: []string{fmt.Sprintf("k%d=v", i)}})
@@ -787,10 +788,15 @@ func narrowScenario(kind string, at int) *scenario {
 // that is dropped, whether its block is the first or the second of the pair that fails, and the height must be
 // fetched again elsewhere.
 func TestNarrowRangeLiar(t *testing.T) {
-	for _, kind := range []string{"tx-tamper", "commit-forged", "commit-padded-sig"} {
+	for _, kind := range []string{"tx-tamper", "commit-forged", "commit-padded-sig", "commit-short/nil", "commit-short/absent"} {
 		kind := kind
 		t.Run(kind, func(t *testing.T) {
-			v := syncOnce(t, "TestNarrowRangeLiar", narrowScenario(kind, 4), "")
+			sc := narrowScenario(strings.Split(kind, "/")[0], 4)
+			if strings.HasSuffix(kind, "/nil") {
+				// exactly 2/3-or-less for the block, everybody else genuinely signed nil
+				sc.Peers[2].Resp[4].Arg = 0
+			}
+			v := syncOnce(t, "TestNarrowRangeLiar", sc, "")
 			if v.liesFirst == 0 {
 				t.Fatalf("VERIF-INFRA: the lie did not reach the node first")
 			}
